@@ -13,15 +13,16 @@ import (
 // C12 — altitude-key conversion never loses altitude and is exact where it can be.
 
 type c12Tuple struct {
-	dir              int
+	dir               int
 	idx, zi, zo, E, O int64
 }
 
 // Two completely enumerated sub-scopes (both tiers):
-//  A "metre window": source/target zooms and base exponent in 22..27 (cells of 8 m .. 0.25 m), offsets 23..41,
-//    source indices f in [-8,7] resp. keys 0..31.
-//  B "coarse zooms": source zoom 0..3 with every index of the zoom (incl. the top index), target zoom 0..4,
-//    base exponent 24..28, eight offsets around +-2^24.
+//
+//	A "metre window": source/target zooms and base exponent in 22..27 (cells of 8 m .. 0.25 m), offsets 23..41,
+//	  source indices f in [-8,7] resp. keys 0..31.
+//	B "coarse zooms": source zoom 0..3 with every index of the zoom (incl. the top index), target zoom 0..4,
+//	  base exponent 24..28, eight offsets around +-2^24.
 var c12Offsets = []int64{0, 1 << 22, -(1 << 22), 1 << 23, 1 << 24, 1<<24 + 1, 1 << 25, 1 << 26}
 
 var c12B []c12Pair // (zoom,index) for scope B: first the Z->key pairs, then from c12BSplit the key->Z pairs
@@ -86,10 +87,10 @@ func init() {
 			"source index uniform or at the bottom/top of its zoom, 0, -1, or just outside the zoom's range. Oracle: error iff source index missing or exact cover leaves the target range (never when the metre-widened cover fits); " +
 			"otherwise min<=max, [min,max] contains the exact cover and lies inside the metre-widened cover; the opposite function called on up to 64 returned indices must return a range containing the source index. " +
 			"Non-trivial = conversion tuple with source zoom != target zoom or O != 0 or E != 25; distinct by tuple. Both tiers include two completely enumerated sub-scopes (metre window 22..27, coarse zooms 0..3 with all indices).",
-		Assume:     []string{"reference: exact rational intervals (math/big); widened = interval rounded outward to whole metres", "|O| <= 2^26 so that the library's int64 shifts cannot overflow"},
-		N:          func(t string) int64 { return c12Exhaustive() + tierN(250_000, 8_000_000)(t) },
-		Floor:      tierN(1000, 10000),
-		Run:        runC12,
+		Assume: []string{"reference: exact rational intervals (math/big); widened = interval rounded outward to whole metres", "|O| <= 2^26 so that the library's int64 shifts cannot overflow"},
+		N:      func(t string) int64 { return c12Exhaustive() + tierN(250_000, 8_000_000)(t) },
+		Floor:  tierN(1000, 10000),
+		Run:    runC12,
 		Exhaustive: func(string) []string {
 			return []string{fmt.Sprintf("A: zooms and base exponent 22..27, offsets 23..41, f in [-8,7] / keys 0..31, both directions (%d tuples)", int64(c12ACount)),
 				fmt.Sprintf("B: source zoom 0..3 with every index, target zoom 0..4, base exponent 24..28, 8 offsets, both directions (%d tuples)", c12BCount())}
